@@ -315,11 +315,27 @@ floating_point_number = (
 plus, minus, mult, div = map(pp.Literal, "+-*/")
 
 # Using infixNotation to manage precedence of operations
+def _parse_arithmetic_chain(tokens: pp.ParseResults) -> float:
+    # infixNotation hands over a whole chain of operators of the same precedence: a op b op c ...
+    chain = tokens[0]
+    result: float = chain[0]
+    for operator, operand in zip(chain[1::2], chain[2::2]):
+        if operator == "*":
+            result *= operand
+        elif operator == "/":
+            result /= operand
+        elif operator == "+":
+            result += operand
+        else:
+            result -= operand
+    return result
+
+
 arithmetic_expr = pp.infixNotation(
     floating_point_number,
     [
-        (mult | div, 2, pp.opAssoc.LEFT, lambda s, l, t: t[0][0] * t[0][2] if t[0][1] == "*" else t[0][0] / t[0][2]),
-        (plus | minus, 2, pp.opAssoc.LEFT, lambda s, l, t: t[0][0] + t[0][2] if t[0][1] == "+" else t[0][0] - t[0][2]),
+        (mult | div, 2, pp.opAssoc.LEFT, _parse_arithmetic_chain),
+        (plus | minus, 2, pp.opAssoc.LEFT, _parse_arithmetic_chain),
     ],
 )
 
